@@ -313,6 +313,55 @@ func nestedTCP(depth, qsize int, how string) NestedRec {
 	return finishNested(r, cnt)
 }
 
+// burstUDP: "as long as handlers return without blocking, in arrival order" under load: n non-confirmable requests are handed
+// to the connection back to back by ONE goroutine (as the socket reader does), many more than the receive queue holds; the
+// handler only records their numbers. Every message is dispatched once, in the order it arrived.
+func burstUDP(qsize, n int) NestedRec {
+	r := NestedRec{Op: "nested", Transport: "udp", How: "burst", Depth: 0, QSize: qsize, Dispatch: []disp{}, Log: []string{}, Ev: []int{}}
+	var mu sync.Mutex
+	var order []int
+	u := conns.NewUDP(func(cfg *udpclient.Config) {
+		cfg.ReceivedMessageQueueSize = qsize
+		cfg.Handler = func(_ *responsewriter.ResponseWriter[*udpclient.Conn], req *pool.Message) {
+			t := req.Token()
+			if len(t) == 3 {
+				mu.Lock()
+				order = append(order, int(t[1])<<8|int(t[2]))
+				mu.Unlock()
+			}
+		}
+	})
+	defer u.Close()
+	for k := 1; k <= n; k++ {
+		_ = u.CC.Process(nil, memnet.Build(message.NonConfirmable, int(codes.GET), int32(1000+k), []byte{0xBB, byte(k >> 8), byte(k)}, message.Options{{ID: message.URIPath, Value: []byte("b")}}, nil))
+	}
+	hooks.WaitFor(wd, func() bool { mu.Lock(); defer mu.Unlock(); return len(order) >= n })
+	u.Quiesce()
+	mu.Lock()
+	defer mu.Unlock()
+	inv, seen := 0, map[int]int{}
+	for i, x := range order {
+		seen[x]++
+		if i > 0 && x < order[i-1] {
+			inv++
+		}
+	}
+	miss, rep := 0, 0
+	for k := 1; k <= n; k++ {
+		if seen[k] == 0 {
+			miss++
+		}
+		if seen[k] > 1 {
+			rep++
+		}
+	}
+	r.Completed = inv == 0 && miss == 0 && rep == 0
+	if !r.Completed {
+		r.Log = append(r.Log, fmt.Sprintf("burst of %d: %d dispatched, %d out of arrival order, %d missing, %d repeated", n, len(order), inv, miss, rep))
+	}
+	return r
+}
+
 // RunNested writes the nested-request records.
 func RunNested(out string) {
 	w := rec.Create(out)
@@ -323,6 +372,7 @@ func RunNested(out string) {
 	}
 	for k := 0; k < reps; k++ {
 		for _, q := range []int{0, 1, 16} {
+			w.Put(burstUDP(q, 400))
 			for d := 1; d <= 3; d++ {
 				for _, how := range []string{"con", "non", "blockwise", "lateack", "samemid", "samemid", "samemid", "samemid"} {
 					w.Put(nestedUDP(d, q, how))
